@@ -187,6 +187,16 @@ func init() {
 		}
 		c.payload = UF("b64dec", SSeq, c.parts[1])
 		ex.assume(UF("b64ok", SBool, c.parts[1]))
+		if iv, ok := a[0].(Iface); ok && iv.T != nil {
+			t := iv.T
+			if p, ok := t.Underlying().(*types.Pointer); ok {
+				t = p.Elem()
+			}
+			switch t.Underlying().(type) {
+			case *types.Struct, *types.Map: // a JSON object
+				ex.assume(And(SeqPrefixOf(StrLit("{"), c.payload), SeqSuffixOf(StrLit("}"), c.payload), Ge(SeqLen(c.payload), IntLit(2))))
+			}
+		}
 		ex.memo["carrier:"+c.tok.String()] = &carrierBox{c}
 		ex.registerDoc(c.payload, &jsonDoc{src: ex.snapshotIface(a[0].(Iface))})
 		return c.tok
